@@ -9,6 +9,7 @@ hold under `height + duration ≤ u32Max ∧ expiry + grace ≤ u32Max`, which e
 configuration satisfies (DESIGN.md, C09).
 -/
 import TeosVerif.Lemmas.Tower
+import TeosVerif.Lemmas.TowerExpiry
 
 namespace Teos.C09
 open Teos
@@ -146,5 +147,48 @@ example :
     (gkConnect { slots := 2, duration := 10, grace := 3 } s 112).mem.users 7 ≠ none ∧
     (gkConnect { slots := 2, duration := 10, grace := 3 } s 113).mem.users 7 = none := by
   decide
+
+/-! ### whole histories -/
+
+/-- **nobody_outlives_expiry_plus_grace**: start a fresh tower and run ANY valid history (requests,
+connected and disconnected blocks — heights moving backwards included —, any node behaviour, no bound
+on length). In the state reached, every user the tower still holds has `expiry + grace` strictly ahead
+of the tower's height: a user whose promised deletion height has been connected is gone, whatever
+happened in between (renewals, reorgs, refunds, breaches). -/
+theorem nobody_outlives_expiry_plus_grace (cfg : Cfg) (hpos : 0 < cfg.duration + cfg.grace) (height : Nat)
+    (blocks : List (Nat × List TxId)) (hnd : (blocks.map (·.1)).Nodup) (hh : height < u32Max)
+    (hist : List (Node × Op)) (hv : HistoryValidE cfg (boot Db.empty height blocks) hist)
+    (u : User) (ui : UserInfo) :
+    let s := runHistory cfg (boot Db.empty height blocks) hist
+    s.mem.users u = some ui → s.mem.gkHeight < ui.expiry + cfg.grace := by
+  intro s hu
+  have e := einv_history cfg hpos hist _ (einv_boot cfg height blocks hnd hh) hv
+  exact e.fresh u (ui.start, ui.expiry) (by unfold window?; rw [hu]; rfl)
+
+/-- **only_the_gatekeeper_moves_windows**: the watcher's and the responder's block handlers and every
+`add_appointment` leave the gatekeeper's height and every user's subscription window (start, expiry)
+exactly as they were — refunds and charges touch balances only. -/
+theorem only_the_gatekeeper_moves_windows (s : Tower) (node : Node) (b height : Nat) (txs : List TxId)
+    (sg : Option User) (l : Loc) (blob : Blob) (t us : Nat) (u : User) :
+    window? (watcherConnect s node b height txs).1 u = window? s u ∧
+    window? (respConnect s node b height txs).1 u = window? s u ∧
+    window? (addAppointment s node sg l blob t us).1 u = window? s u :=
+  ⟨(gkSame_watcherConnect s node b height txs).win u, (gkSame_respConnect s node b height txs).win u,
+   (gkSame_addAppointment s node sg l blob t us).win u⟩
+
+/-- the invariant is kept by every valid operation from any state satisfying it -/
+theorem expiry_invariant_step (cfg : Cfg) (s : Tower) (node : Node) (op : Op) (h : EInv cfg s)
+    (hpos : 0 < cfg.duration + cfg.grace) (hv : OpValid s op) (he : OpValidE s op) :
+    EInv cfg (step cfg s node op).1 := einv_step cfg s node op h hpos hv he
+
+/-- non-vacuity: a user registered at 100 (duration 3, grace 2) is gone once block 105 is connected, and
+was still there after block 104 -/
+example :
+    let cfg : Cfg := { slots := 3, duration := 3, grace := 2 }
+    let node : Node := { send := fun _ => .ok, get := fun _ => .rpc (-5) }
+    let s0 := (register cfg (boot Db.empty 100 []) 7).1
+    let s4 := (connectBlock cfg (connectBlock cfg (connectBlock cfg (connectBlock cfg s0 node 1 101 []).1 node 2 102 []).1
+      node 3 103 []).1 node 4 104 []).1
+    (s4.mem.users 7).isSome = true ∧ ((connectBlock cfg s4 node 5 105 []).1.mem.users 7).isSome = false := by decide
 
 end Teos.C09
